@@ -295,7 +295,9 @@ func TestC14Edits(t *testing.T) {
 			},
 			"RemoveAttr": func(t *rapid.T) {
 				tn := rapid.SampledFrom(typePool).Draw(t, "type")
-				an := rapid.SampledFrom(attrPool).Draw(t, "name")
+				// also names that only exist as relationships: removing an
+				// absent attribute must not touch them
+				an := rapid.SampledFrom(append(append([]string{}, attrPool...), relPool...)).Draw(t, "name")
 
 				step(fmt.Sprintf("RemoveAttr(%q, %q)", tn, an), false, func() error { schema.RemoveAttr(tn, an); return nil }, func() {
 					if mt := model.find(tn); mt != nil {
@@ -321,7 +323,7 @@ func TestC14Edits(t *testing.T) {
 			},
 			"RemoveRel": func(t *rapid.T) {
 				tn := rapid.SampledFrom(typePool).Draw(t, "type")
-				rn := rapid.SampledFrom(relPool).Draw(t, "name")
+				rn := rapid.SampledFrom(append(append([]string{}, relPool...), attrPool...)).Draw(t, "name")
 
 				step(fmt.Sprintf("RemoveRel(%q, %q)", tn, rn), false, func() error { schema.RemoveRel(tn, rn); return nil }, func() {
 					if mt := model.find(tn); mt != nil {
